@@ -343,6 +343,10 @@ class GraphicsTerminal:
             )
             self.shellscript_out.write("\n")
 
+        # Printing the placeholder moves the cursor (and may scroll the screen), we
+        # don't know where it ends up.
+        self.tracked_cursor_position = None
+
     def print_placeholder_for_put(
         self,
         put_command: PutCommand,
